@@ -279,15 +279,15 @@ pub fn property() -> Property {
             ),
             prop_sub(
                 "asm.roundtrip_ops",
-                20_000,
-                1_500_000,
+                400_000,
+                3_200_000,
                 |_| proptest::collection::vec(gen::any_mop(), 0..60).prop_map(OpsCase),
                 |c: &OpsCase, obs| check_roundtrip(&c.0, obs),
             ),
             prop_sub(
                 "asm.parse_bytes",
-                20_000,
-                1_500_000,
+                400_000,
+                3_200_000,
                 |_| {
                     prop_oneof![
                         // arbitrary bytes
